@@ -80,6 +80,9 @@ def main(argv):
             if r.status == "refuted" and os.environ.get("VC_MODEL"):
                 print("   path:", r.ob.info.get("path"))
                 print("   " + r.info.replace("\n", "\n   "))
+    if os.environ.get("VC_SLOW"):
+        for r in sorted(res, key=lambda r: -r.secs)[:int(os.environ["VC_SLOW"])]:
+            print("  slow %.2fs %s %s" % (r.secs, r.status, r.ob.name))
     print("obligations %d, ok %d, not ok %d, solver time %.1fs, wall %.1fs" % (
         len(res), len(res) - bad, bad, sum(r.secs for r in res), time.time() - t0))
 
